@@ -29,7 +29,11 @@ def gen_history(r, slow, nops, nkeys, inten, removes=18):
         if t < 100 - removes - 12:
             ops.append('i%d%s' % (k, arm(r, slow, inten)))
         elif t < 100 - 12:
-            ops.append('r%d' % k)
+            u = r.below(10)
+            if u < 6: ops.append('r%d' % k)
+            elif u < 8: ops += ['e%d' % k, 'j%s' % arm(r, slow, inten)]
+            elif u < 9: ops.append('p%d_%d' % (r.choice([2, 3, 5]), r.below(2)))
+            else: ops.append('m')
         elif t < 100 - 6:
             ops.append('q%d' % k)
         elif t < 100 - 3:
@@ -109,6 +113,10 @@ def gen_cases(ctx, scale):
         if tail == 0: ops += ['v%d' % r.range(60, 400)]
         elif tail == 1: ops += ['v%da0' % r.range(60, 400), 'v%df%d' % (r.range(60, 400), r.range(0, 6)), 't', 'v%d' % r.range(100, 400)]
         elif tail == 2: ops += ['x%d' % r.below(2)] + ['i%d%s' % (k, r.choice(['', 'f1', 'a0'])) for k in range(400, 420)]
+        else:
+            # Remove(filter) / Extract / Insert(ExtractedItem) in the multi-generation state
+            ops += ['e%d' % r.below(25), 'j%s' % r.choice(['f1', 'a0', 'a0f1', '']), 'e%d' % r.below(25), 'e%d' % r.below(25), 'jf1', 'j',
+                    'p%d_%d' % (r.choice([2, 3, 4]), r.below(2)), 't', 'e%d' % r.below(25), 'p2_1', 'j', 'm']
         ops += ['t'] + ['i%d' % k for k in range(300, 300 + r.range(1, 40))]
         add(kind, r.choice(['T', 'T', 'T', 'S']), dist, ls, 'S', ops)
     # 5. fast-hash keys in LimP4 (one allocation per bucket array): migrations interrupted by refused bucket-array allocations
@@ -133,6 +141,20 @@ def gen_cases(ctx, scale):
     ops += ['i%da0f1' % (k + j) for j in range(3 * bc + 2)]
     ops += ['i%d' % (1000 + j) for j in range(4)] + ['t', 'r3', 'i2000', 'i2001']
     add('O3', 'T', 0, 0, 'S', ops)
+    # 7. first insertion into a bucket-less container (fresh, after Clear(true), after moving everything away): refused
+    #    bucket array, refused BucketParams, refused item array; move out and back in between (BucketParams ownership)
+    for kind in ['L4', 'O3', 'O8', 'P3', 'N1', 'L1', 'O1', 'L4d']:
+        for keycat in (['F', 'T'] if scale == 1 else ['F', 'S', 'T']):
+            sm = 'M' if (keycat != 'T' and kind in ('L4', 'O3')) else 'S'
+            ops = ['i0a0', 'i1a1', 'i2a2', 'm', 'i3', 'i4', 'i5', 'x1', 'i6a0', 'i7a1', 'i8a2', 'm', 'i9', 'i10a0', 'y', 'i11a0', 'i12a1', 'i13a2', 'i14',
+                   'e14', 'x1', 'ja0', 'ja1', 'j', 'i15a0', 'y', 'm', 'i16a1', 'i17', 't', 'p2_0', 'x0', 'i18a0', 'i19']
+            add(kind, keycat, r.choice([0, 4]), r.choice([1, 2]), sm, ops)
+    # 8. probe sequences longer than 255 (lossy max-probe encodings): constant hash, one big table obtained by Reserve
+    add('O1', 'F', 1, 4, 'S', ['v400', 'b300', 'q7100', 'q7299', 'r7250', 'q7299', 't', 'e7290', 'j', 'p7_3'])
+    if scale > 1:
+        add('O2', 'F', 1, 4, 'S', ['v800', 'b560', 'q7100', 'q7559', 'r7500', 'q7559', 't'])
+        add('O8', 'F', 1, 4, 'S', ['v3000', 'b2100', 'q7100', 'q9099', 'r9000', 'q9099', 't'])
+        add('L1', 'F', 1, 4, 'S', ['v300', 'b280', 'q7100', 'q7279', 'r7250', 'q7279', 't'])
     return cases
 
 
